@@ -146,7 +146,7 @@ def run(ctx):
         b = F.fn("MultiUidCompactor::run")
         cu = one(b, r"MultiUidCompactor::compact_uid$")
         ins = one(b, r"HashMap::insert$")
-        nxs = [c for c in b.find_calls(r"Iterator>::next$") if has_origin(b.origins(c.args[0], transparent=NEXT_TRANSPARENT), None, proj_contains=[".uid_plans"])]
+        nxs = [c for c in for_headers(b) if has_origin(b.origins(c.args[0], transparent=NEXT_TRANSPARENT), None, proj_contains=[".uid_plans"])]
         if not nxs:
             raise AnchorMissing("loop over batch.uid_plans")
         nx = nxs[0]
